@@ -264,18 +264,20 @@ def builtinScalar (n : Name) : Bool :=
 /-- input coercion of a *leaf* literal (not a list, not null, not a variable) for the named type `n`
     (§3.5.1–3.5.5 built-in scalars incl. Int → Float and Int → ID, §3.5 custom scalars, §3.9 enums);
     input objects are handled in `valueOk` -/
+def scalarLeafOk (n : Name) (v : Value) : Bool :=
+  if n == "Int" then (match v with | .int .. => true | _ => false)
+  else if n == "Float" then (match v with | .int .. | .float .. => true | _ => false)
+  else if n == "String" then (match v with | .str .. => true | _ => false)
+  else if n == "Boolean" then (match v with | .bool .. => true | _ => false)
+  else if n == "ID" then (match v with | .str .. | .int .. => true | _ => false)
+  else true
+
 def leafOk (S : Schema) (n : Name) (v : Value) : Bool :=
   match S.typeDef? n with
   | none => false
   | some td =>
     match td.kind with
-    | .scalar =>
-      if n == "Int" then (match v with | .int .. => true | _ => false)
-      else if n == "Float" then (match v with | .int .. | .float .. => true | _ => false)
-      else if n == "String" then (match v with | .str .. => true | _ => false)
-      else if n == "Boolean" then (match v with | .bool .. => true | _ => false)
-      else if n == "ID" then (match v with | .str .. | .int .. => true | _ => false)
-      else true
+    | .scalar => scalarLeafOk n v
     | .enum => (match v with | .enum e _ => td.values.any (·.name == e) | _ => false)
     | _ => false
 
@@ -322,6 +324,10 @@ def directiveArgsOk (S : Schema) (df : DirectiveDef) (d : Directive) : Bool :=
     | none => false) &&
   df.args.all (fun ad => d.args.any (·.1 == ad.name) || !requiredArg ad)
 
+/-- 5.4.2 Argument Uniqueness: no application gives one argument twice -/
+def directiveArgNamesUnique (T : TsDoc) : Bool :=
+  (dirSites T).all fun s => s.2.all fun d => noDup (d.args.map (·.1))
+
 def directiveArgs (T : TsDoc) : Bool :=
   (dirSites T).all fun s => s.2.all fun d =>
     match (Schema.mk T).directiveDef? d.name with
@@ -335,7 +341,7 @@ def directiveArgs (T : TsDoc) : Bool :=
 inductive Node where
   | dir (n : Name)
   | ty (n : Name)
-  deriving DecidableEq, Repr, BEq
+  deriving DecidableEq, Repr
 
 /-- all directives applied anywhere inside a type definition -/
 def dirsWithin (t : TypeDef) : List Directive :=
@@ -354,6 +360,15 @@ def refs (S : Schema) : Node → List Node
     match S.typeDef? n with
     | none => []
     | some t => (dirsWithin t).map (fun x => Node.dir x.name) ++ (inputsOfT t).map (fun f => Node.ty f.ty.unwrapped)
+
+/-- "transitively includes a reference": at least one step along `refs` -/
+inductive SpecReaches (S : Schema) : Node → Node → Prop where
+  | step {a b : Node} : b ∈ refs S a → SpecReaches S a b
+  | cons {a b c : Node} : b ∈ refs S a → SpecReaches S b c → SpecReaches S a c
+
+/-- the recursion rule as a relation: no directive definition transitively references itself -/
+def NoSpecRecursion (T : TsDoc) : Prop :=
+  ∀ d ∈ directiveDefs T, ¬ SpecReaches ⟨T⟩ (.dir d.name) (.dir d.name)
 
 def insertNew : List Node → List Node → List Node
   | acc, [] => acc
@@ -388,7 +403,8 @@ def rules : List (String × (TsDoc → Bool)) :=
    ("directive-unknown", directivesDefined), ("directive-location", directivesLocated),
    ("directive-repeated", directivesUnique), ("directive-args", directiveArgs),
    ("directive-recursion", noRecursiveDirectives),
-   ("unique-type-names", uniqueTypeNames), ("unique-directive-names", uniqueDirectiveNames)]
+   ("unique-type-names", uniqueTypeNames), ("unique-directive-names", uniqueDirectiveNames),
+   ("directive-arg-names-unique", directiveArgNamesUnique)]
 
 def violated (T : TsDoc) : List String := (rules.filter fun r => !r.2 T).map (·.1)
 
@@ -399,6 +415,6 @@ def tsSpecValid (T : TsDoc) : Bool :=
   noSelfImplements T && transitiveInterfaces T && ifaceFieldsPresent T && ifaceFieldsCovariant T &&
   ifaceFieldArgs T && unionMembersObjects T && directivesDefined T && directivesLocated T &&
   directivesUnique T && directiveArgs T && noRecursiveDirectives T && uniqueTypeNames T &&
-  uniqueDirectiveNames T
+  uniqueDirectiveNames T && directiveArgNamesUnique T
 
 end NitroVerif.ValidTs
